@@ -1203,6 +1203,11 @@ def _fde(ctx, absacce, plain=True):
     f = Facts(truths=truths, preds=preds)
     for text in ("sig.ndim", "freq.ndim"):
         f.num_set(E(text), 1)
+    if plain:
+        # the signal is sampled finely enough (20 points per cycle at the highest frequency, 10 wanted): every spelling of the
+        # "needs resampling" test (curppc < ppc, ppc > curppc, not curppc >= ppc, sr < ppc * mxfrq) is decided by arithmetic
+        for text, x in (("ppc", 10), ("sr", 100), ("np.max(freq)", 5)):
+            f.num_set(E(text), x)
     # the regime is selected by *binding* the parameter to the regime's literal: every way of testing it (==, !=, in, a table look-up,
     # a character of it) then evaluates; the predicates above stay for code that re-binds the name
     S = XSem(ctx, fn, facts=f, consts=consts, inline={k: v for k, v in table.items() if k not in ("fdepsd", "_dofde", "_mk_par_globals")},
